@@ -86,7 +86,9 @@ CONSTANTS MODE,     \* "matrix" | "stages" | "inter" | "deep"
           NS2, NS3, \* matrix: number of seed-sampled pairs / triples over ALL kinds per builtin
           NSBIG,    \* matrix: number of sampled tuples for arities 4..6
           NCAP,     \* matrix: number of sampled tuples for a builtin whose budget is capped
+          HOF,      \* matrix: 0 none | 1 small | 2 large data set for the procedure-argument family
           MAXD,     \* deep: largest depth index used (1..6 => 10^2 .. 10^7)
+          MAXDSLOW, \* deep: ... for the families marked slow (compile time measured quadratic in the depth)
           LEN,      \* inter: number of units of a history
           MUTANT    \* TRUE = deliberately wrong oracle (self-test of the binding)
 
@@ -286,6 +288,17 @@ ExhOn(n) == (n = 1) \/ (n = 2 /\ T2 >= 1) \/ (n = 3 /\ T3 >= 1)
 NSamples(n) == IF n = 1 THEN 0 ELSE IF n = 2 THEN NS2 ELSE IF n = 3 THEN NS3 ELSE NSBIG
 SampleArgs(f, n, j) == [p \in 1..n |-> (Mix4(f, n, j, p) % NK) + 1]
 
+(* The procedure-argument family ("hof"): one argument position holds a     *)
+(* procedure - of arity 0 / 1 / 2 / any, raising, ESCAPING through a        *)
+(* continuation, a native function, a continuation - the other positions    *)
+(* hold one kind of data.  Higher-order builtins call it with the right or  *)
+(* the wrong number of arguments; the others must reject it.                *)
+KindIx(name) == CHOOSE k \in 1..NK : Kinds[k].n = name
+ProcKinds == {KindIx(x) : x \in {"clo0", "clo1", "clo2", "clov", "cloerr", "cloesc", "prim", "cont"}}
+HofData == IF HOF = 1 THEN {KindIx("lst")}
+           ELSE {KindIx(x) : x \in {"lst", "nil", "vec", "fx1", "hash", "str", "stream", "xduce"}}
+HofArgs(n, pos, pk, dk) == [p \in 1..n |-> IF p = pos THEN pk ELSE dk]
+
 CallSrc(name, as) ==
   LET call == "(" \o Join(<<name>> \o [p \in 1..Len(as) |-> Kinds[as[p]].c], " ") \o ")"
   IN IF \E p \in 1..Len(as) : Kinds[as[p]].wrap
@@ -415,6 +428,19 @@ StageCase(ci, si) ==
       ctl |-> UnitSrc(c, Stages[NS]), ctlemits |-> RunCtx(c, Stages[NS]).emits,
       after |-> After(g)]
 
+(* Re-entering, from a LATER unit, a continuation captured by an EARLIER     *)
+(* unit, with a failing unit in between.  What "the rest of an earlier      *)
+(* top-level form" means is implementation defined; the contract only says: *)
+(* no crash, no hang, and the engine state is intact afterwards.            *)
+CaptureSrc == "(define r07k@@ #f) (emit (+ 1 (call/cc (lambda (k) (set! r07k@@ k) 1)))) (emit (quote after))"
+ReenterCase(si) ==
+  LET c == Contexts[1]  s == Stages[si]  r == RunCtx(c, s)
+      d == (si % 7) + 1
+      g == [d |-> d, g |-> 1, p |-> 1]
+  IN [k |-> "reenter", stage |-> s.n, d |-> d, capture |-> CaptureSrc, capemits |-> <<"2", "after">>,
+      src |-> UnitSrc(c, s), out |-> r.out, emits |-> r.emits,
+      reenter |-> "(r07k@@ 5)", after |-> After(g)]
+
 -----------------------------------------------------------------------------
 (* MODE "inter": histories on one engine.  Units:                           *)
 (*   fail(c, s)   a context with a failing expression  (G unchanged)        *)
@@ -449,8 +475,10 @@ Units == [op : {"fail"}, c : 1..NC, s : 1..(NS - 2), v : {0}]     \* all stages 
 (*   val   "d": the value is D;  "lit": the literal `lit`;  "": the value  *)
 (*         is not compared (only: returns or error value, then the probe)  *)
 (*   maxd  largest depth index generated (depth = 10^(index+1))            *)
+SlowFamilies == {"nest-let", "nest-define", "wide-letstar", "nest-cond", "wide-cond", "nest-macro-use"}
 F(n, pre, a, mid, b, post, val, lit, maxd) ==
-  [n |-> n, pre |-> pre, a |-> a, mid |-> mid, b |-> b, post |-> post, val |-> val, lit |-> lit, maxd |-> maxd]
+  [n |-> n, pre |-> pre, a |-> a, mid |-> mid, b |-> b, post |-> post, val |-> val, lit |-> lit, maxd |-> maxd,
+   slow |-> (n \in SlowFamilies)]
 Families == <<
   F("open-paren", "", "(", "", "", "", "", "", 5),
   F("close-paren", "", ")", "", "", "", "", "", 5),
@@ -528,6 +556,9 @@ DeepText(fm, di) ==
   IN [k |-> "deep", fam |-> fm.n, shape |-> "text", pre |-> fm.pre, a |-> fm.a, mid |-> fm.mid, b |-> fm.b, post |-> fm.post,
       depth |-> depth, huge |-> (depth >= 100000), class |-> "noncrash", val |-> ValOf(fm.val, fm.lit, depth), d |-> d,
       probe |-> Probe([d |-> d, g |-> 1, p |-> 1])]
+\* one engine, many successful units: the engine must not run out of a process-wide resource
+ManyUnits(n) == [k |-> "units", n |-> n, src |-> "(define (r07l@@ x) (+ x 1))", d |-> 3,
+                 probe |-> Probe([d |-> 3, g |-> 1, p |-> 1])]
 DeepRec(r, di) ==
   LET depth == Pow10(di + 1)  d == (di % 7) + 1
   IN [k |-> "deep", fam |-> r.n, shape |-> "rec", def |-> r.def, call |-> r.ca \o ToString(depth) \o r.cb,
@@ -557,6 +588,10 @@ MatrixPick ==
              /\ \E n \in ValidAr(Table[i]) : \E j \in 1..(IF Capped(i) THEN NCAP ELSE NSamples(n)) :
                   /\ n >= 1
                   /\ ar' = n /\ args' = SampleArgs(i, n, j) /\ fam' = "smp" /\ phase' = "done"
+          \/ \* a procedure in one position, data in the others
+             /\ HOF >= 1 /\ ~Capped(i)
+             /\ \E n \in ValidAr(Table[i]) \cap {2, 3} : \E pos \in 1..n, pk \in ProcKinds, dk \in HofData :
+                  /\ ar' = n /\ args' = HofArgs(n, pos, pk, dk) /\ fam' = "hof" /\ phase' = "done"
           \/ \* one argument too few / too many
              /\ \E n \in WrongAr(Table[i]) :
                   /\ ar' = n /\ args' = [p \in 1..n |-> Fx1] /\ fam' = "arity" /\ phase' = "done"
@@ -572,8 +607,9 @@ MatrixArg ==
 \* ---- stages
 StagePick ==
   /\ MODE = "stages" /\ phase = "start"
-  /\ \E ci \in 1..NC, si \in 1..NS : fi' = ci /\ ar' = si
-  /\ phase' = "done" /\ UNCHANGED <<args, fam, hist, G>>
+  /\ \/ \E ci \in 1..NC, si \in 1..NS : fi' = ci /\ ar' = si /\ fam' = "stage"
+     \/ \E si \in 1..NS : fi' = 0 /\ ar' = si /\ fam' = "reenter"
+  /\ phase' = "done" /\ UNCHANGED <<args, hist, G>>
 
 \* ---- inter
 InterStart ==
@@ -598,11 +634,12 @@ InterStep ==
 DeepPick ==
   /\ MODE = "deep" /\ phase = "start"
   /\ \/ \E i \in 1..Len(Families) : \E di \in 1..MAXD :
-          /\ di <= Families[i].maxd
+          /\ di <= Families[i].maxd /\ (Families[i].slow => di <= MAXDSLOW)
           /\ fi' = i /\ ar' = di /\ fam' = "text"
      \/ \E i \in 1..Len(Recursions) : \E di \in 2..MAXD :
           /\ di <= Recursions[i].maxd
           /\ fi' = i /\ ar' = di /\ fam' = "rec"
+     \/ MAXD >= 4 /\ fi' = 0 /\ ar' = 40000 /\ fam' = "units"
   /\ phase' = "done" /\ UNCHANGED <<args, hist, G>>
 
 Next == MatrixPick \/ MatrixArg \/ StagePick \/ InterStart \/ InterClass \/ InterStep \/ DeepPick
@@ -616,9 +653,10 @@ TypeOK == /\ phase \in {"start", "args", "hist", "done"}
 
 CaseOf ==
   IF MODE = "matrix" THEN MatrixCase(fi, args, fam)
-  ELSE IF MODE = "stages" THEN StageCase(fi, ar)
+  ELSE IF MODE = "stages" THEN (IF fam = "reenter" THEN ReenterCase(ar) ELSE StageCase(fi, ar))
   ELSE IF MODE = "inter" THEN [k |-> "inter", d |-> fi, hist |-> hist]
-  ELSE IF fam = "text" THEN DeepText(Families[fi], ar) ELSE DeepRec(Recursions[fi], ar)
+  ELSE IF fam = "text" THEN DeepText(Families[fi], ar)
+  ELSE IF fam = "units" THEN ManyUnits(ar) ELSE DeepRec(Recursions[fi], ar)
 
 Emit == (phase = "done") => PrintT(<<"REPLAY", ToJson(CaseOf)>>)
 
